@@ -7,9 +7,19 @@ Only property theorems and examples live here; helpers are in `Pattern/ParserLem
 `Pattern/EncodeLemmas.lean`. All statements quantify over every string over the full Unicode
 alphabet (`List Char`), every character classification `cc`, every record and environment.
 
-The unconditional no-panic statements are FALSE of the current code (findings F3, F4): they are
-kept as `def … : Prop`, refuted on concrete witnesses, and proved under the hypotheses that name
-the defect (`digitRunsFit`, `strftimeOk` of the rendered date formats).
+The model follows the repaired code (defaults of `Profile` and `Build`): F3 — an overflowing width
+is `{ERROR: width too large}` (commit 67091ff, `Profile.widthCheck`); F4 — a date format whose
+trial rendering fails is `{ERROR: invalid date format …}` at construction
+(commits 73e36b9 + ea62e36, `Build.dateCheck`). The no-panic statements are FULL theorems for that model.
+The behaviour before the repairs stays selectable (`Profile.unfixed64`, `dateCheck := false`) and
+the negative witnesses survive as `…_unfixed`.
+
+The construction-time check is the trial rendering of commit ea62e36 (`Build.current`: the build
+asks chrono the same question as the encode), so the encode theorem is unconditional. The
+intermediate items-scan repair (73e36b9) and its `%#z` residue are kept as `…_items_scan` /
+`…_unfixed` theorems. Modelling assumption behind `Env.strftimeOk : format → Bool`: chrono's
+render verdict depends on the format only (not on zone or instant); the driver checks it on the
+harness' facts in every case.
 -/
 namespace Log4rs.Pattern.Parse
 
@@ -46,112 +56,170 @@ theorem C11_fuel_mono (cc : CharClass) (P : Profile) (fuel : Nat) (s : List Char
     (∀ acc, argBody cc P fuel s acc = argBody cc P (s.length + 1) s acc) :=
   ⟨fun acc => argsLoop_fuel_mono cc P fuel s acc h, fun acc => argBody_fuel_mono cc P fuel s acc h⟩
 
-/-! ## construction never panics — when every explicit width fits `usize` -/
+/-! ## construction never panics -/
 
-/-- the full statement (false: F3) -/
-def C11_parse_no_panic_full : Prop :=
-  ∀ (cc : CharClass) (P : Profile) (s : List Char) (w : String), parse cc P s ≠ .panic w
+/-- FULL: `PatternEncoder::new` cannot panic on any string whatsoever, in any build profile and
+word size — for the current code (`widthCheck`, the repair of F3). -/
+theorem C11_parse_no_panic (cc : CharClass) (P : Profile) (hfix : P.widthCheck = true)
+    (s : List Char) (w : String) : parse cc P s ≠ .panic w :=
+  parseLoop_ne_panic cc P (s.length + 1) s (intSafe_of_widthCheck P hfix s) w
 
-/-- `PatternEncoder::new` cannot panic on a string all of whose digit runs fit the word size —
-whatever else the string contains. -/
-theorem C11_parse_no_panic_partial (cc : CharClass) (P : Profile) (s : List Char)
+/-- … and neither can the chunk construction on top of it. -/
+theorem C11_new_no_panic (cc : CharClass) (P : Profile) (B : Build) (hfix : P.widthCheck = true)
+    (s : List Char) : ∃ cs, newEncoder cc P B s = .ok cs := by
+  unfold newEncoder
+  cases hp : parse cc P s with
+  | ok a => exact ⟨_, rfl⟩
+  | err e => cases e; exact absurd hp (C11_parse_total cc P s)
+  | panic w => exact absurd hp (C11_parse_no_panic cc P hfix s w)
+
+/-- the default profile is the repaired code -/
+example : Profile.debug64.widthCheck = true ∧ Profile.release64.widthCheck = true := ⟨rfl, rfl⟩
+
+/-- An absurd width is surfaced as an error marker; the text around it still renders. -/
+theorem C11_width_too_large_witness :
+    parse asciiClass Profile.debug64 cs!"a{m:99999999999999999999}b" =
+      .ok [.text ['a'], .error cs!"width too large", .text ['b']] := by rfl
+
+/-- Before the repair (also without it): no panic when every digit run fits the word size … -/
+theorem C11_parse_no_panic_partial_unfixed (cc : CharClass) (P : Profile) (s : List Char)
     (h : digitRunsFit P s = true) (w : String) : parse cc P s ≠ .panic w :=
   parseLoop_ne_panic cc P (s.length + 1) s (intSafe_of_digitRunsFit P s h) w
 
-/-- Without overflow checks (release profile) construction never panics at all: the width wraps
-instead (see `C11_F3_release_wraps`). -/
-theorem C11_parse_no_panic_wrapping (cc : CharClass) (P : Profile) (s : List Char)
+/-- … or when overflow checks are off (the width then wrapped: `C11_F3_release_wraps_unfixed`). -/
+theorem C11_parse_no_panic_wrapping_unfixed (cc : CharClass) (P : Profile) (s : List Char)
     (h : P.overflowChecks = false) (w : String) : parse cc P s ≠ .panic w :=
   parseLoop_ne_panic cc P (s.length + 1) s (intSafe_of_wrapping P h s) w
 
-/-- With the proposed repair of F3 (`Profile.widthCheck`: checked accumulation, an overflowing
-width becomes an `Err`) construction never panics, in any profile and on any string. -/
-theorem C11_parse_no_panic_after_repair (cc : CharClass) (P : Profile) (s : List Char)
-    (h : P.widthCheck = true) (w : String) : parse cc P s ≠ .panic w :=
-  parseLoop_ne_panic cc P (s.length + 1) s (intSafe_of_widthCheck P h s) w
+/-- the unconditional statement over ALL profiles, including the unrepaired one (false: F3) -/
+def C11_parse_no_panic_all_profiles : Prop :=
+  ∀ (cc : CharClass) (P : Profile) (s : List Char) (w : String), parse cc P s ≠ .panic w
 
-/-- … and the absurd width is surfaced as an error marker, as the statement asks. -/
-theorem C11_F3_repaired_witness :
-    parse asciiClass { widthCheck := true } cs!"a{m:99999999999999999999}b" =
-      .ok [.text ['a'], .error cs!"width too large", .text ['b']] := by rfl
+/-- F3 (historical): before commit 67091ff `{m:99999999999999999999}` panicked in
+`Parser::integer` under overflow checks. -/
+theorem C11_F3_witness_panics_unfixed :
+    (parse asciiClass Profile.unfixed64 cs!"{m:99999999999999999999}").isPanic = true := by decide
 
-/-- F3 witness: `{m:99999999999999999999}` panics in `Parser::integer` under overflow checks
-(the profile of the test-suite and of the harness). -/
-theorem C11_F3_witness_panics :
-    (parse asciiClass Profile.debug64 cs!"{m:99999999999999999999}").isPanic = true := by decide
-
-theorem C11_parse_no_panic_full_false : ¬ C11_parse_no_panic_full := by
+theorem C11_parse_no_panic_all_profiles_false_unfixed : ¬ C11_parse_no_panic_all_profiles := by
   intro h
-  have hw := C11_F3_witness_panics
-  cases hp : parse asciiClass Profile.debug64 cs!"{m:99999999999999999999}" with
+  have hw := C11_F3_witness_panics_unfixed
+  cases hp : parse asciiClass Profile.unfixed64 cs!"{m:99999999999999999999}" with
   | ok a => rw [hp] at hw; cases hw
   | err e => rw [hp] at hw; cases hw
   | panic w => exact h _ _ _ w hp
 
-/-- F3 in the release profile: no panic, but `2^64 + 1` silently becomes the width 1. -/
-theorem C11_F3_release_wraps :
-    parse asciiClass Profile.release64 cs!"{m:18446744073709551617}" =
+/-- F3 (historical), release profile: no panic, but `2^64 + 1` silently became the width 1. -/
+theorem C11_F3_release_wraps_unfixed :
+    parse asciiClass Profile.unfixedRelease64 cs!"{m:18446744073709551617}" =
       .ok [.arg ['m'] [] { minW := some 1 }] := by rfl
 
-/-! ## encoding never panics — when chrono accepts every date format that is rendered -/
+/-! ## encoding never panics -/
 
-/-- the full statement (false: F4) -/
-def C11_encode_no_panic_full : Prop :=
-  ∀ (cc : CharClass) (P : Profile) (env : Env) (r : Record) (s : List Char) (w : String),
-    digitRunsFit P s = true → run cc P env r s ≠ .panic w
-
-/-- Encoding any chunk list on any record succeeds (and yields the operation stream `opsList`)
-when chrono accepts every date format the encode renders. -/
-theorem C11_encode_no_panic_partial (env : Env) (r : Record) (cs : List Chunk)
-    (h : ∀ x ∈ renderedTimesL env cs, env.strftimeOk x.1 x.2 = true) :
+/-- Encoding a chunk list cannot panic when chrono accepts every date format the encode renders;
+it then yields exactly the operation stream `opsList`. -/
+theorem C11_encode_no_panic_of_rendered_ok (env : Env) (r : Record) (cs : List Chunk)
+    (h : ∀ x ∈ renderedTimesL env cs, env.strftimeOk x.1 = true) :
     encList env r cs = .ok (opsList env r cs) ∧ ∀ w, encList env r cs ≠ .panic w := by
   have := encList_eq_ops env r cs h
   exact ⟨this, fun w hw => by rw [this] at hw; cases hw⟩
+
+/-- Any build whose construction-time check implies renderability (general form). -/
+theorem C11_encode_no_panic_of_check (B : Build) (hfix : B.dateCheck = true) (env : Env)
+    (hr : ∀ fmt, B.dateOk fmt = true → env.strftimeOk fmt = true) (r : Record) (pieces : List Piece) :
+    encList env r (compileL B pieces) = .ok (opsList env r (compileL B pieces)) ∧
+      ∀ w, encList env r (compileL B pieces) ≠ .panic w := by
+  apply C11_encode_no_panic_of_rendered_ok
+  intro x hx
+  exact hr x.1 (times_compileL B hfix pieces x (rendered_sub_timesL env _ x hx))
+
+/-- FULL, unconditional: encoding ANY record with the chunks the current code (`Build.current`:
+trial rendering at construction, commit ea62e36) compiles from ANY pieces cannot panic. -/
+theorem C11_encode_no_panic (env : Env) (r : Record) (pieces : List Piece) :
+    encList env r (compileL (Build.current env) pieces) =
+        .ok (opsList env r (compileL (Build.current env) pieces)) ∧
+      ∀ w, encList env r (compileL (Build.current env) pieces) ≠ .panic w :=
+  C11_encode_no_panic_of_check (Build.current env) rfl env (fun _ h => h) r pieces
 
 /-- with an infallible sink the encoder never returns an error either -/
 theorem C11_encode_never_err (env : Env) (r : Record) (cs : List Chunk) (e : Unit) :
     encList env r cs ≠ .err e := encList_ne_err env r cs e
 
-/-- Both hypotheses together: construct + encode of any string is `ok`. -/
-theorem C11_run_no_panic_partial (cc : CharClass) (P : Profile) (env : Env) (r : Record)
-    (s : List Char) (hw : digitRunsFit P s = true)
-    (hd : ∀ cs, newEncoder cc P s = .ok cs → ∀ x ∈ renderedTimesL env cs, env.strftimeOk x.1 x.2 = true) :
-    ∃ o, run cc P env r s = .ok o := by
+/-- FULL, end to end, unconditional: constructing an encoder from any string whatsoever and encoding
+any record with it is `ok` — no panic, no abort, no error (current code: `widthCheck` of the
+profile, `Build.current`). -/
+theorem C11_run_no_panic (cc : CharClass) (P : Profile) (hw : P.widthCheck = true) (env : Env)
+    (r : Record) (s : List Char) : ∃ o, run cc P (Build.current env) env r s = .ok o := by
+  obtain ⟨cs, hcs⟩ := C11_new_no_panic cc P (Build.current env) hw s
   unfold run
-  cases hn : newEncoder cc P s with
-  | ok cs => exact ⟨_, (C11_encode_no_panic_partial env r cs (hd cs hn)).1⟩
-  | err e =>
-    unfold newEncoder at hn
-    cases hp : parse cc P s with
-    | ok a => rw [hp] at hn; simp [omap] at hn
-    | err e' => cases e'; exact absurd hp (C11_parse_total cc P s)
-    | panic w => exact absurd hp (C11_parse_no_panic_partial cc P s hw w)
-  | panic w =>
-    unfold newEncoder at hn
-    cases hp : parse cc P s with
-    | ok a => rw [hp] at hn; simp [omap] at hn
-    | err e' => cases e'; exact absurd hp (C11_parse_total cc P s)
-    | panic w' => exact absurd hp (C11_parse_no_panic_partial cc P s hw w')
+  rw [hcs]
+  unfold newEncoder at hcs
+  cases hp : parse cc P s with
+  | ok pieces =>
+    rw [hp] at hcs
+    simp only [omap, Outcome.ok.injEq] at hcs
+    subst hcs
+    exact ⟨_, (C11_encode_no_panic env r pieces).1⟩
+  | err e => rw [hp] at hcs; simp [omap] at hcs
+  | panic w => rw [hp] at hcs; simp [omap] at hcs
 
-/-- F4 witness: `{d(%Q)}` constructs fine and panics at encode as soon as chrono rejects `%Q`
-(the harness checks on every run that it does). -/
-theorem C11_F4_witness_panics (env : Env) (r : Record) (h : env.strftimeOk cs!"%Q" false = false) :
-    (run asciiClass Profile.debug64 env r cs!"{d(%Q)}").isPanic = true := by
-  have hn : newEncoder asciiClass Profile.debug64 cs!"{d(%Q)}" =
-      .ok [.leaf (.time cs!"%Q" false) {}] := by rfl
+/-- the statement over ALL builds, including the one before the repair of F4 (false) -/
+def C11_encode_no_panic_all_builds : Prop :=
+  ∀ (cc : CharClass) (P : Profile) (B : Build) (env : Env) (r : Record) (s : List Char) (w : String),
+    B.renderOk = env.strftimeOk → run cc P B env r s ≠ .panic w
+
+/-- F4 (historical): before commit 73e36b9 `{d(%Q)}` constructed fine and panicked at encode as
+soon as chrono rejects `%Q`. -/
+theorem C11_F4_witness_panics_unfixed (B : Build) (hB : B.dateCheck = false) (env : Env) (r : Record)
+    (h : env.strftimeOk cs!"%Q" = false) :
+    (run asciiClass Profile.debug64 B env r cs!"{d(%Q)}").isPanic = true := by
+  have hp : parse asciiClass Profile.debug64 cs!"{d(%Q)}" = .ok [.arg ['d'] [[.text cs!"%Q"]] {}] := by rfl
+  have hn : newEncoder asciiClass Profile.debug64 B cs!"{d(%Q)}" = .ok [.leaf (.time cs!"%Q" false) {}] := by
+    simp only [newEncoder, hp, omap, compileL_cons, compileL_nil]
+    rw [compile_arg]
+    simp [dateChunk, dateFormatArg, dateFormatOf, hB]
   simp [run, hn, encList, encChunk, leafText, h, omap, Outcome.isPanic]
 
-theorem C11_encode_no_panic_full_false : ¬ C11_encode_no_panic_full := by
+theorem C11_encode_no_panic_all_builds_false_unfixed : ¬ C11_encode_no_panic_all_builds := by
   intro hfull
+  let B : Build := { renderOk := fun _ => false, dateCheck := false }
   let env : Env :=
-    { strftimeOk := fun _ _ => false, dateText := fun _ _ => [], threadName := none,
+    { strftimeOk := fun _ => false, dateText := fun _ _ => [], threadName := none,
       threadId := 0, pid := 0, mdc := [], debugBuild := true }
   let r : Record := { level := 3, message := [], target := [] }
-  have hw := C11_F4_witness_panics env r rfl
-  cases hp : run asciiClass Profile.debug64 env r cs!"{d(%Q)}" with
+  have hw := C11_F4_witness_panics_unfixed B rfl env r rfl
+  cases hp : run asciiClass Profile.debug64 B env r cs!"{d(%Q)}" with
   | ok a => rw [hp] at hw; cases hw
   | err e => rw [hp] at hw; cases hw
-  | panic w => exact hfull _ _ _ _ _ w (by decide) hp
+  | panic w => exact hfull _ _ _ _ _ _ w rfl hp
+
+/-- The intermediate repair 73e36b9 (historical, `itemsScan`): the `StrftimeItems` scan — no panic
+given that chrono's item parser and renderer agree … -/
+theorem C11_encode_no_panic_items_scan (B : Build) (hfix : B.dateCheck = true) (hs : B.itemsScan = true)
+    (env : Env) (hr : ∀ fmt, B.itemsOk fmt = true → env.strftimeOk fmt = true)
+    (r : Record) (pieces : List Piece) : ∀ w, encList env r (compileL B pieces) ≠ .panic w :=
+  (C11_encode_no_panic_of_check B hfix env (fun f h => hr f (by simpa [Build.dateOk, hs] using h)) r pieces).2
+
+/-- … which they do not on the parse-only `%#z`: it passes the scan and cannot be rendered, so
+`{d(%#z)}` still panicked at encode (the residue closed by ea62e36). -/
+theorem C11_items_scan_residue_panics_unfixed (B : Build) (hfix : B.dateCheck = true) (hs : B.itemsScan = true)
+    (hi : B.itemsOk cs!"%#z" = true) (env : Env) (r : Record) (h : env.strftimeOk cs!"%#z" = false) :
+    (run asciiClass Profile.debug64 B env r cs!"{d(%#z)}").isPanic = true := by
+  have hp : parse asciiClass Profile.debug64 cs!"{d(%#z)}" = .ok [.arg ['d'] [[.text cs!"%#z"]] {}] := by rfl
+  have hn : newEncoder asciiClass Profile.debug64 B cs!"{d(%#z)}" = .ok [.leaf (.time cs!"%#z" false) {}] := by
+    simp only [newEncoder, hp, omap, compileL_cons, compileL_nil]
+    rw [compile_arg]
+    simp [dateChunk, dateFormatArg, dateFormatOf, hfix, Build.dateOk, hs, hi]
+  simp [run, hn, encList, encChunk, leafText, h, omap, Outcome.isPanic]
+
+/-- With the trial rendering the same pattern is an error marker at construction. -/
+theorem C11_invalid_date_format_witness (env : Env) (h : env.strftimeOk cs!"%#z" = false) :
+    newEncoder asciiClass Profile.debug64 (Build.current env) cs!"x{d(%#z)}y" =
+      .ok [.text ['x'], .error cs!"invalid date format `%#z`", .text ['y']] := by
+  have hp : parse asciiClass Profile.debug64 cs!"x{d(%#z)}y" =
+      .ok [.text ['x'], .arg ['d'] [[.text cs!"%#z"]] {}, .text ['y']] := by rfl
+  simp only [newEncoder, hp, omap, compileL_cons, compileL_nil, compile_text]
+  rw [compile_arg]
+  simp [dateChunk, dateFormatArg, dateFormatOf, Build.current, Build.dateOk, h, eInvalidDateFormat]
 
 /-! ## errors surface as `{ERROR: e}`, and what precedes them still renders -/
 
@@ -240,36 +308,54 @@ theorem C11_error_kinds_unclosed_paren (cc : CharClass) (P : Profile) (f : Nat) 
 parenthesis is `{ERROR: expected '}'}` (the `unclosed '('` text never reaches the output). -/
 theorem C11_error_kinds_unclosed_paren_surfaces (cc : CharClass) (P : Profile)
     (F : List Char → PR (List (List Piece))) (r e : List Char)
-    (h : F (name cc r).2 = .fail e []) :
+    (h : F (name cc P r).2 = .fail e []) :
     argumentWith cc P F r = .ok (some (.error cs!"expected '}'")) [] := by
   simp [argumentWith, h, closeBrace, eExpectedClose]
 
+/-- an explicit width that does not fit `usize` (repair of F3): the piece is the error, the rest
+of the number is swallowed and parsing continues after it -/
+theorem C11_error_kinds_width_too_large (P : Profile) (hfix : P.widthCheck = true) (c : Char)
+    (r : List Char) (cur : Nat) (found : Bool) (hc : Str.isAsciiDigit c = true)
+    (hbig : ¬ cur * 10 + Str.digitVal c < 2 ^ P.wordBits) :
+    integerLoop P (c :: r) cur found = .fail cs!"width too large" (r.dropWhile Str.isAsciiDigit) := by
+  simp [integerLoop, hc, hbig, hfix, eWidthTooLarge]
+
+/-- … and `argument()` turns a failed `parameters()` into the error piece -/
+theorem C11_error_kinds_width_too_large_surfaces (cc : CharClass) (P : Profile)
+    (F : List Char → PR (List (List Piece))) (r r2 r3 e : List Char) (args : List (List Piece))
+    (h : F (name cc P r).2 = .ok args r2) (hp : parameters P r2 = .fail e ('}' :: r3)) :
+    argumentWith cc P F r = .ok (some (.error e)) r3 := by
+  simp [argumentWith, h, hp, closeBrace]
+
+/-- a date format chrono's item parser rejects (repair of F4): an error chunk at construction,
+whatever the time zone argument says -/
+theorem C11_error_kinds_invalid_date_format (B : Build) (hfix : B.dateCheck = true)
+    (args : List (List Piece)) (p : Params) (hlen : args.length ≤ 2)
+    (hbad : B.dateOk (dateFormatArg args) = false) :
+    compile B (.arg ['d'] args p) = .error (cs!"invalid date format `" ++ dateFormatArg args ++ ['`']) ∧
+    compile B (.arg cs!"date" args p) = .error (cs!"invalid date format `" ++ dateFormatArg args ++ ['`']) := by
+  have hl : ¬ args.length > 2 := by omega
+  constructor <;> (rw [compile_arg]; simp [dateChunk, hl, hfix, hbad, eInvalidDateFormat])
+
 /-- unknown formatter name -/
-theorem C11_error_kinds_unknown_formatter (n : List Char) (args : List (List Piece)) (p : Params)
+theorem C11_error_kinds_unknown_formatter (B : Build) (n : List Char) (args : List (List Piece)) (p : Params)
     (h1 : n ≠ cs!"d") (h2 : n ≠ cs!"date") (h3 : groupOfName n = none) (h4 : leafOfName n = none)
     (h5 : n ≠ cs!"X") (h6 : n ≠ cs!"mdc") :
-    compile (.arg n args p) = .error (cs!"unknown formatter `" ++ n ++ ['`']) := by
+    compile B (.arg n args p) = .error (cs!"unknown formatter `" ++ n ++ ['`']) := by
   rw [compile_arg]; simp [h1, h2, h3, h4, h5, h6, eUnknownFormatter]
 
 /-- arguments given to a formatter that takes none -/
-theorem C11_error_kinds_unexpected_arguments (n : List Char) (k : Leaf) (a : List Piece)
+theorem C11_error_kinds_unexpected_arguments (B : Build) (n : List Char) (k : Leaf) (a : List Piece)
     (args : List (List Piece)) (p : Params) (hk : leafOfName n = some k) :
-    compile (.arg n (a :: args) p) = .error cs!"unexpected arguments" := by
-  have h1 : n ≠ cs!"d" := by intro h; subst h; simp [leafOfName] at hk
-  have h2 : n ≠ cs!"date" := by intro h; subst h; simp [leafOfName] at hk
-  have h3 : groupOfName n = none := by
-    unfold leafOfName at hk
-    unfold groupOfName
-    repeat (split; (rename_i hn; simp at hn; rcases hn with hn | hn <;> subst hn <;> simp at hk))
-    split
-    · rename_i hn; subst hn; simp at hk
-    · rfl
+    compile B (.arg n (a :: args) p) = .error cs!"unexpected arguments" := by
+  obtain ⟨h3, h1, h2⟩ := leafTable_notGroup _ (leafLookup_mem n leafTable k hk)
+  simp only at h1 h2 h3
   rw [compile_arg]; simp [h1, h2, h3, hk, noArgs, eUnexpectedArgs]
 
 /-- `h`, `D`, `R` and the unnamed formatter with a number of arguments other than one -/
-theorem C11_error_kinds_exactly_one (n : List Char) (g : GroupKind) (args : List (List Piece))
+theorem C11_error_kinds_exactly_one (B : Build) (n : List Char) (g : GroupKind) (args : List (List Piece))
     (p : Params) (hg : groupOfName n = some g) (hlen : args.length ≠ 1) :
-    compile (.arg n args p) = .error cs!"expected exactly one argument" := by
+    compile B (.arg n args p) = .error cs!"expected exactly one argument" := by
   have h1 : n ≠ cs!"d" := by intro h; subst h; simp [groupOfName] at hg
   have h2 : n ≠ cs!"date" := by intro h; subst h; simp [groupOfName] at hg
   match args, hlen with
@@ -278,59 +364,63 @@ theorem C11_error_kinds_exactly_one (n : List Char) (g : GroupKind) (args : List
   | a :: b :: t, _ => rw [compile_arg]; simp [h1, h2, hg, eExactlyOne]
 
 /-- more than two arguments to `d` / `X` -/
-theorem C11_error_kinds_at_most_two (a b c : List Piece) (args : List (List Piece)) (p : Params) :
-    compile (.arg ['d'] (a :: b :: c :: args) p) = .error cs!"expected at most two arguments" ∧
-    compile (.arg cs!"date" (a :: b :: c :: args) p) = .error cs!"expected at most two arguments" ∧
-    compile (.arg ['X'] (a :: b :: c :: args) p) = .error cs!"expected at most two arguments" ∧
-    compile (.arg cs!"mdc" (a :: b :: c :: args) p) = .error cs!"expected at most two arguments" := by
+theorem C11_error_kinds_at_most_two (B : Build) (a b c : List Piece) (args : List (List Piece)) (p : Params) :
+    compile B (.arg ['d'] (a :: b :: c :: args) p) = .error cs!"expected at most two arguments" ∧
+    compile B (.arg cs!"date" (a :: b :: c :: args) p) = .error cs!"expected at most two arguments" ∧
+    compile B (.arg ['X'] (a :: b :: c :: args) p) = .error cs!"expected at most two arguments" ∧
+    compile B (.arg cs!"mdc" (a :: b :: c :: args) p) = .error cs!"expected at most two arguments" := by
   refine ⟨?_, ?_, ?_, ?_⟩ <;>
-    (rw [compile_arg]; simp [dateChunk, mdcChunk, groupOfName, leafOfName, eAtMostTwo])
+    (rw [compile_arg]; simp [dateChunk, mdcChunk, groupOfName, leafOfName, leafTable, leafLookup, eAtMostTwo])
 
-/-- a time zone other than `utc` / `local` -/
-theorem C11_error_kinds_bad_timezone (fmt : List Piece) (z : List Char) (rest : List Piece) (p : Params)
+/-- a time zone other than `utc` / `local` (the date format itself being acceptable) -/
+theorem C11_error_kinds_bad_timezone (B : Build) (fmt : List Piece) (z : List Char) (rest : List Piece)
+    (p : Params) (hf : B.dateCheck = false ∨ B.dateOk (dateFormatOf fmt) = true)
     (h1 : z ≠ cs!"utc") (h2 : z ≠ cs!"local") :
-    compile (.arg ['d'] [fmt, .text z :: rest] p) = .error (cs!"invalid timezone `" ++ z ++ ['`']) := by
-  rw [compile_arg]; simp [dateChunk, timezoneOf, h1, h2, eInvalidTimezoneNamed]
+    compile B (.arg ['d'] [fmt, .text z :: rest] p) = .error (cs!"invalid timezone `" ++ z ++ ['`']) := by
+  rw [compile_arg]
+  rcases hf with hf | hf <;>
+    simp [dateChunk, dateFormatArg, hf, timezoneOf, h1, h2, eInvalidTimezoneNamed]
 
 /-- an empty time zone argument, or one that does not start with text -/
-theorem C11_error_kinds_invalid_timezone (fmt : List Piece) (p : Params) :
-    compile (.arg ['d'] [fmt, []] p) = .error cs!"invalid timezone" ∧
-    (∀ n a q rest, compile (.arg ['d'] [fmt, .arg n a q :: rest] p) = .error cs!"invalid timezone") ∧
-    (∀ e rest, compile (.arg ['d'] [fmt, .error e :: rest] p) = .error cs!"invalid timezone") := by
-  refine ⟨?_, ?_, ?_⟩ <;> intros <;> (rw [compile_arg]; simp [dateChunk, timezoneOf, eInvalidTimezone])
+theorem C11_error_kinds_invalid_timezone (B : Build) (fmt : List Piece) (p : Params)
+    (hf : B.dateCheck = false ∨ B.dateOk (dateFormatOf fmt) = true) :
+    compile B (.arg ['d'] [fmt, []] p) = .error cs!"invalid timezone" ∧
+    (∀ n a q rest, compile B (.arg ['d'] [fmt, .arg n a q :: rest] p) = .error cs!"invalid timezone") ∧
+    (∀ e rest, compile B (.arg ['d'] [fmt, .error e :: rest] p) = .error cs!"invalid timezone") := by
+  refine ⟨?_, ?_, ?_⟩ <;> intros <;>
+    (rw [compile_arg]; rcases hf with hf | hf <;>
+      simp [dateChunk, dateFormatArg, hf, timezoneOf, eInvalidTimezone])
 
-/-- MDC without a key, with an empty key, or with a formatter as key -/
-theorem C11_error_kinds_mdc_key (p : Params) :
-    compile (.arg ['X'] [] p) = .error cs!"missing MDC key" ∧
-    (∀ rest, compile (.arg ['X'] ([] :: rest) p) = .error cs!"invalid MDC key" ∨ rest.length > 1) ∧
-    (∀ n a q more, compile (.arg ['X'] [.arg n a q :: more] p) = .error cs!"invalid MDC key") ∧
-    (∀ e more, compile (.arg ['X'] [.error e :: more] p) = .error e) := by
-  refine ⟨?_, ?_, ?_, ?_⟩
-  · rw [compile_arg]; simp [mdcChunk, groupOfName, leafOfName, eMissingMdcKey]
-  · intro rest
-    by_cases h : rest.length > 1
-    · exact Or.inr h
-    · left
-      have : ¬ (rest.length + 1 > 2) := by omega
-      rw [compile_arg]; simp [mdcChunk, groupOfName, leafOfName, mdcTextOf, eInvalidMdcKey, this]
-  · intros; rw [compile_arg]; simp [mdcChunk, groupOfName, leafOfName, mdcTextOf, eInvalidMdcKey]
-  · intros; rw [compile_arg]; simp [mdcChunk, groupOfName, leafOfName, mdcTextOf]
+/-- MDC without a key, with an empty key, with a formatter inside the key, or with a syntax
+error inside the key (repaired `plain_text`: anywhere in the argument) -/
+theorem C11_error_kinds_mdc_key (B : Build) (hfix : B.mdcWhole = true) (p : Params) :
+    compile B (.arg ['X'] [] p) = .error cs!"missing MDC key" ∧
+    compile B (.arg ['X'] [[]] p) = .error cs!"invalid MDC key" ∧
+    (∀ t n a q more, compile B (.arg ['X'] [.text t :: .arg n a q :: more] p) = .error cs!"invalid MDC key") ∧
+    (∀ t e more, compile B (.arg ['X'] [.text t :: .error e :: more] p) = .error e) := by
+  refine ⟨?_, ?_, ?_, ?_⟩ <;> intros <;>
+    (rw [compile_arg]
+     simp [mdcChunk, groupOfName, leafOfName, leafTable, leafLookup, mdcArgText, hfix, plainTextOf,
+       plainTextLoop, eMissingMdcKey, eInvalidMdcKey])
 
-/-- MDC with an empty default or a formatter as default -/
-theorem C11_error_kinds_mdc_default (k : List Char) (more : List Piece) (p : Params) :
-    compile (.arg ['X'] [.text k :: more, []] p) = .error cs!"invalid MDC default" ∧
-    (∀ n a q rest, compile (.arg ['X'] [.text k :: more, .arg n a q :: rest] p) =
+/-- MDC with an empty default or a formatter inside the default -/
+theorem C11_error_kinds_mdc_default (B : Build) (hfix : B.mdcWhole = true) (k : List Char) (p : Params) :
+    compile B (.arg ['X'] [[.text k], []] p) = .error cs!"invalid MDC default" ∧
+    (∀ n a q rest, compile B (.arg ['X'] [[.text k], .arg n a q :: rest] p) =
       .error cs!"invalid MDC default") := by
   refine ⟨?_, ?_⟩ <;> intros <;>
-    (rw [compile_arg]; simp [mdcChunk, groupOfName, leafOfName, mdcTextOf, eInvalidMdcDefault])
+    (rw [compile_arg]
+     simp [mdcChunk, groupOfName, leafOfName, leafTable, leafLookup, mdcArgText, hfix, plainTextOf,
+       plainTextLoop, eInvalidMdcDefault])
 
 /-! ## examples (tests on samples, and non-vacuity of the hypotheses) -/
 
-/-- the hypothesis of `C11_parse_no_panic_partial` holds for ordinary patterns … -/
-example : digitRunsFit Profile.debug64 cs!"{d(%Y-%m-%d)} {l:>5.10} {m}{n}" = true := by decide
-/-- … including the largest width that fits, and fails exactly from `2^64` on -/
-example : digitRunsFit Profile.debug64 cs!"{m:18446744073709551615}" = true := by decide
-example : digitRunsFit Profile.debug64 cs!"{m:18446744073709551616}" = false := by decide
+/-- the hypothesis of the historical partial theorem -/
+example : digitRunsFit Profile.unfixed64 cs!"{d(%Y-%m-%d)} {l:>5.10} {m}{n}" = true := by decide
+example : digitRunsFit Profile.unfixed64 cs!"{m:18446744073709551615}" = true := by decide
+example : digitRunsFit Profile.unfixed64 cs!"{m:18446744073709551616}" = false := by decide
+
+def exampleBuild : Build := { renderOk := fun f => f != cs!"%Q" }
 
 /-- end-to-end samples of the error classes (tests): text before the error is kept -/
 example : parse asciiClass Profile.debug64 cs!"a}b" =
@@ -338,10 +428,15 @@ example : parse asciiClass Profile.debug64 cs!"a}b" =
 example : parse asciiClass Profile.debug64 cs!"a{m" = .ok [.text ['a'], .error cs!"expected '}'"] := by rfl
 example : parse asciiClass Profile.debug64 cs!"{l}{m(x}tail" =
     .ok [.arg ['l'] [] {}, .error cs!"expected '}'"] := by rfl
-example : newEncoder asciiClass Profile.debug64 cs!"{x}" = .ok [.error cs!"unknown formatter `x`"] := by rfl
-example : newEncoder asciiClass Profile.debug64 cs!"{d(%Y)(cet)}" =
+example : newEncoder asciiClass Profile.debug64 exampleBuild cs!"{x}" =
+    .ok [.error cs!"unknown formatter `x`"] := by rfl
+example : newEncoder asciiClass Profile.debug64 exampleBuild cs!"{d(%Y)(cet)}" =
     .ok [.error cs!"invalid timezone `cet`"] := by rfl
-example : newEncoder asciiClass Profile.debug64 cs!"{h(a)(b)}" =
+example : newEncoder asciiClass Profile.debug64 exampleBuild cs!"{d(%Q)(cet)}" =
+    .ok [.error cs!"invalid date format `%Q`"] := by rfl
+example : newEncoder asciiClass Profile.debug64 exampleBuild cs!"{h(a)(b)}" =
     .ok [.error cs!"expected exactly one argument"] := by rfl
+example : newEncoder asciiClass Profile.debug64 exampleBuild cs!"{m:.99999999999999999999}" =
+    .ok [.error cs!"width too large"] := by rfl
 
 end Log4rs.Pattern.Parse
